@@ -188,6 +188,7 @@ class Batch:
         self.guard_stride = 50
         self.crashes = []      # (run, sig, stderr)
         self.infra = []
+        self.stalled = set()   # runs repeated once because the worker's real-time watchdog fired
         self.wall = 0.0
 
     def env(self, frm, to, samples=0):
@@ -247,6 +248,16 @@ class Batch:
                 self.infra.append('worker exited %d without a pending run (runs %d..%d): %s' % (rc, cur, to, err[-1500:]))
                 break
             sig = crash_signature(self.prop, err)
+            if sig is None and 'WATCHDOG: run' in err and not harness_panic(err) and pend[0] not in self.stalled and len(self.stalled) < 3:
+                # The worker's watchdog measures real time. A machine that stood still for a minute
+                # (a virtual machine paused for a snapshot, a host without a free core) makes it
+                # fire on a run that has nothing wrong with it: the run is executed once more, in a
+                # fresh process, before anything is said about it. A run that really does not
+                # come back fails the same way again and is reported as before.
+                self.stalled.add(pend[0])
+                self.agg.stats['worker_watchdog_fired_run_repeated'] = self.agg.stats.get('worker_watchdog_fired_run_repeated', 0) + 1
+                cur = pend[0]
+                continue
             if sig is None:
                 self.infra.append(('simulator code panicked (a bug in /verif, not a violation) at run %d: %s' if harness_panic(err) else 'worker watchdog at run %d: %s') % (pend[0], tail_of_crash(err)[:1200] if harness_panic(err) else (err[err.index('WATCHDOG: run'):][:6000] if 'WATCHDOG: run' in err else err[-800:])))
             else:
